@@ -231,6 +231,19 @@ def todo (T : Task) : List Nat :=
 /-- the answer every lookup of key `k` must see: a function of the supplier table only -/
 def expected (cfg : Cfg) (k : Nat) : Nat × Res := (k, cfg.outcome k)
 
+/-- the keys task `t` has begun to look up: those it has an answer for, and the one it is in
+    the middle of -/
+def begun (s : State) (t : Nat) : List Nat :=
+  (seenBy t s.log).map Prod.fst ++
+    (match (s.task t).ctl with
+     | .waiting k => [k]
+     | .inSup k _ => [k]
+     | _ => [])
+
+/-- distinct keys some task has begun to look up -/
+def startedKeys (cfg : Cfg) (s : State) : List Nat :=
+  (allKeys cfg).filter fun k => (List.range cfg.ntasks).any fun t => (begun s t).contains k
+
 /-! ### executors used by the tie -/
 
 /-- tasks an executor that respects wakers would consider: woken and unfinished -/
